@@ -13,7 +13,8 @@ Tie (differential, every run):
                     × merchant sets (built by the real analyze_transactions) against `View.classifyViews`;
   * stream `keys`   strftime('%Y-%m' | '%Y' | '%Y-%m-%d' | '%Y-W%W') against the model's key functions.
 Oracle on the implementation alone (the property itself): membership ⇔ not excluded ∧ the single filter is
-true over the merchant's own payments; add / remove / reorder views leaves other views alone; view total =
+true over the merchant's own payments (variables evaluated per merchant by the harness's own loop, and once more with
+every variable reference textually replaced by its definition: one closed expression over the primitives); add / remove / reorder views leaves other views alone; view total =
 Σ member totals; a failing filter excludes instead of aborting; months / total / cv against an exact
 (Fraction) specification.
 """
@@ -440,6 +441,181 @@ def gen_views(r, env, ill_p=0.12):
     return {'globals': gl, 'sections': secs}
 
 
+# ---- views files whose global variables depend on the merchant only INDIRECTLY -------------------------------
+# base globals mention a primitive themselves; derived globals are written purely in terms of OTHER variables (plus constants,
+# period() and the value-only functions), in chains, through function calls, aggregates of list / nested / set-valued variables,
+# conditional expressions, and with the reference spelled in another letter case than the definition.
+BASE_GLOBALS = [
+    ('monthly', 'num', ['total / months', 'TOTAL / Months', 'sum(payments) / months']),
+    ('avgp', 'num', ['avg(payments)', 'total / count(payments)']),
+    ('npay', 'num', ['count(payments)', 'Count(PAYMENTS)']),
+    ('tot', 'num', ['total', 'Total', 'sum(payments)']),
+    ('active', 'num', ['months', 'MONTHS']),
+    ('spread', 'num', ['cv', 'CV']),
+    ('peak', 'num', ['max(sum(by("month")))', 'max(payments)']),
+    ('bym', 'nested', ['by("month")', 'BY("month")', 'by("year")']),
+    ('pays', 'list', ['payments', 'Payments']),
+    ('tg', 'set', ['tags', 'TAGS']),
+    ('lbl', 'str', ['category', 'Category']),
+    ('sub', 'str', ['subcategory']),
+    ('who', 'str', ['merchant']),
+]
+DERIVED_NAMES = ['is_habit', 'headroom', 'big2', 'score', 'flag', 'lvl', 'ratio', 'cheap', 'tagged', 'same', 'pick', 'deep']
+
+
+def ref_case(r, n):
+    """a reference to the variable `n` (lookups lower-case the reference, so any letter case reaches a lower-case definition)"""
+    return r.choice([n, n, n, n.upper(), n.capitalize(), n[:1] + n[1:].upper()])
+
+
+def data_numbers(bm):
+    """numbers that split THIS merchant set: per-merchant monthly average, total, mean payment, month and payment counts"""
+    out = []
+    for _, d in bm.items():
+        tx = d.get('transactions', [])
+        if not tx or not all(isinstance(t['amount'], (int, float)) and math.isfinite(t['amount']) for t in tx):
+            continue
+        tot = sum(t['amount'] for t in tx)
+        mo = len({t['month'] for t in tx}) or 1
+        out += [tot / mo, tot, tot / len(tx), mo, len(tx), max(t['amount'] for t in tx)]
+    return [round(x, 2) for x in out] or [1, 100]
+
+
+def derived_expr(r, tv, lits, ty, depth):
+    """an expression of type `ty` over the variables in `tv` (type -> names) ONLY: no primitive, no by()"""
+    g = lambda t, d=depth - 1: derived_expr(r, tv, lits, t, d)
+    num = lambda: (lambda x: repr(x) if x >= 0 else f'({x!r})')(r.choice(lits['num']))
+    has = lambda t: bool(tv.get(t))
+    v = lambda t: ref_case(r, r.choice(tv[t]))
+    if ty == 'num':
+        opts = []
+        if has('num'):
+            opts += ['var'] * 3
+        if depth > 0:
+            opts += ['arith', 'arith', 'fn2', 'fn1', 'cond']
+            opts += ['agg-list'] * 2 if has('list') else []
+            opts += ['agg-nested'] * 2 if has('nested') else []
+            opts += ['count-set'] if has('set') else []
+        k = r.choice(opts or ['lit'])
+        if k == 'var':
+            return v('num')
+        if k == 'arith':
+            return f'({g("num")} {r.choice(["+", "-", "*", "/"])} {r.choice([num(), g("num")])})'
+        if k == 'fn2':
+            return f'{r.choice(["max_val", "min_val"])}({g("num")}, {r.choice([num(), g("num"), "period(\"month\")"])})'
+        if k == 'fn1':
+            return r.choice([f'abs({g("num")} - {num()})', f'round({g("num")}, {r.choice([0, 1, 2])})', f'(-{g("num")})'])
+        if k == 'cond':
+            return f'({g("num")} if {g("bool")} else {r.choice([num(), g("num")])})'
+        if k == 'agg-list':
+            return f'{r.choice(["sum", "avg", "count", "max", "min"])}({v("list")})'
+        if k == 'agg-nested':
+            return r.choice([f'max(sum({v("nested")}))', f'count({v("nested")})', f'avg(count({v("nested")}))', f'min(sum({v("nested")}))'])
+        if k == 'count-set':
+            return f'count({v("set")})'
+        return num()
+    if ty == 'bool':
+        opts = []
+        if has('bool'):
+            opts += ['var'] * 2
+        if has('num'):
+            opts += ['cmp'] * 4
+        if has('str'):
+            opts += ['streq', 'streq', 'substr']
+        if has('set'):
+            opts += ['intags'] * 2
+        if has('list') and has('num'):
+            opts += ['inlist']
+        if depth > 0:
+            opts += ['and', 'not', 'cond']
+        k = r.choice(opts or ['lit'])
+        if k == 'var':
+            return v('bool')
+        if k == 'cmp':
+            return f'{g("num")} {r.choice(["<", "<=", ">", ">=", ">", "!="])} {r.choice([num(), num(), g("num")])}'
+        if k == 'streq':
+            return f'{v("str")} {r.choice(["==", "==", "!="])} {json.dumps(case_variant(r, r.choice(lits["str"])), ensure_ascii=False)}'
+        if k == 'substr':
+            return f'{json.dumps(r.choice(lits["str"])[:2], ensure_ascii=False)} {r.choice(["in", "not in"])} {v("str")}'
+        if k == 'intags':
+            return f'{json.dumps(case_variant(r, r.choice(lits["tag"])), ensure_ascii=False)} {r.choice(["in", "in", "not in"])} {v("set")}'
+        if k == 'inlist':
+            return f'{g("num")} {r.choice(["in", "not in"])} {v("list")}'
+        if k == 'and':
+            return f'({g("bool")} {r.choice(["and", "or"])} {g("bool")})'
+        if k == 'not':
+            return f'(not {g("bool")})'
+        if k == 'cond':
+            return f'({g("bool")} if {g("bool")} else {g("bool")})'
+        return r.choice(['true', 'false'])
+    if ty == 'str':
+        return v('str') if has('str') else json.dumps(r.choice(lits['str']), ensure_ascii=False)
+    return v(ty) if has(ty) else 'payments'
+
+
+def gen_indirect_views(r, bm):
+    """views file of the class "global variable whose value depends on the merchant only through other variables" """
+    lits = {'num': data_numbers(bm) + [0, 1, 2, 3, 100],
+            'str': sorted({d.get('category', '') or 'Food' for d in bm.values()} | {d.get('subcategory', '') or 'Rent' for d in bm.values()} | set(bm)),
+            'tag': sorted({t for d in bm.values() for t in d.get('tags', [])} | {'business', 'x'})}
+    gl, tv, dep = [], {}, set()          # dep: variables whose value depends on the merchant (directly or not)
+    reach = lambda n: n == n.lower()
+    # constants first / last / in between: they are merchant-independent for real
+    consts = [('thr', 'num', lambda: repr(abs(r.choice(lits['num'])))), ('k', 'num', lambda: r.choice(['period("month")', 'period("month") * 0.5', 'max_val(2, period("year"))'])),
+              ('word', 'str', lambda: json.dumps(r.choice(lits['str']), ensure_ascii=False))]
+    base = r.sample(BASE_GLOBALS, r.choice([1, 2, 2, 3, 4]))
+    decls = [(n, t, r.choice(es), True) for n, t, es in base] + [(n, t, f(), False) for n, t, f in r.sample(consts, r.choice([0, 1, 2, 3]))]
+    r.shuffle(decls)
+    if r.random() < 0.1:                 # a base variable written with an upper-case letter: unreachable, everything built on it fails
+        i = r.randrange(len(decls))
+        decls[i] = (decls[i][0].capitalize(),) + decls[i][1:]
+    for n, t, e, d in decls:
+        gl.append((n, e))
+        if reach(n):
+            tv.setdefault(t, []).append(n)
+            if d:
+                dep.add(n)
+    derived = []
+    names = r.sample(DERIVED_NAMES, r.choice([1, 2, 2, 3, 4]))
+    for n in names:
+        ty = r.choice(['bool', 'bool', 'num', 'num', 'str' if tv.get('str') else 'num', r.choice(['list', 'set', 'nested', 'bool'])])
+        e = derived_expr(r, tv, lits, ty, r.choice([1, 1, 2, 3]))
+        if ty in ('list', 'set', 'nested') and not tv.get(ty):
+            ty, e = 'bool', derived_expr(r, tv, lits, 'bool', 2)
+        gl.append((n, e))
+        derived.append(n)
+        tv.setdefault(ty, []).append(n)
+    if r.random() < 0.08 and len(gl) >= 2:   # defined AFTER its first use: None at that point, for every merchant
+        i = r.randrange(len(gl) - 1)
+        gl.append(gl.pop(i))
+    secs = []
+    vnames = ['Habits', 'Cheap', 'Steady', 'Derived', 'Mixed', 'Local']
+    r.shuffle(vnames)
+    dv = {t: [n for n in ns if n in derived] for t, ns in tv.items()}
+    for i in range(r.choice([1, 2, 3, 4])):
+        loc = []
+        ltv = {t: list(ns) for t, ns in tv.items()}
+        src = dv if any(dv.values()) and r.random() < 0.8 else ltv
+        if r.random() < 0.35:            # a view-local variable derived from the (derived) globals
+            ty = r.choice(['num', 'bool'])
+            ln = r.choice(['loc', 'ok2', 'thr', 'lvl'])
+            loc.append((ln, derived_expr(r, {t: ns for t, ns in src.items() if ns} or ltv, lits, ty, 2)))
+            ltv.setdefault(ty, []).append(ln)
+            src = {ty: [ln]}
+        k = r.random()
+        pick = {t: ns for t, ns in src.items() if ns} or ltv
+        if k < 0.75:
+            f = derived_expr(r, pick, lits, 'bool', r.choice([0, 1, 1, 2]))
+            if r.random() < 0.3:
+                f = f'{f} {r.choice(["and", "or"])} {r.choice(["months >= 2", "total > 0", "category != \"\"", "count(payments) > 1"])}'
+        elif k < 0.9 and (pick.get('num') or pick.get('str')):
+            f = derived_expr(r, pick, lits, r.choice([t for t in ('num', 'str') if pick.get(t)]), 1)       # truthiness of a number / string
+        else:
+            f = 'true'
+        secs.append({'name': vnames[i], 'locals': loc, 'filter': f})
+    return {'globals': gl, 'sections': secs, 'indirect': True, 'derived': derived}
+
+
 def render_views(v):
     lines = ['# generated']
     for n, e in v['globals']:
@@ -598,20 +774,91 @@ def section_txns(name, d):
              'tags': list(d.get('tags', []))} for t in d.get('transactions', [])]
 
 
-def single_filter(cfg, sec, txns, pd, num_months):
-    """the view's filter evaluated on its own over one merchant's payments → True / False / ('abort', cls)"""
-    from tally import expr_parser as EP, section_engine as SE
-    try:
-        g = SE.evaluate_variables(cfg.global_variables, txns, num_months, period_data=pd)
-        v = SE.evaluate_variables(sec.variables, txns, num_months, g, pd) if sec.variables else g
+def spec_variables(pairs, txns, pd, num_months, existing=None):
+    """The documented meaning of a block of variable declarations, written here and not taken from section_engine: for THIS
+    merchant's payments, in file order, each declaration sees the ones before it; a declaration that cannot be evaluated is None."""
+    from tally import expr_parser as EP
+    res = dict(existing or {})
+    for name, e in pairs:
+        ctx = EP.ExpressionContext(transactions=[dict(t) for t in txns], num_months=num_months, variables=dict(res), period_data=dict(pd or {}))
         try:
-            return EP.evaluate_filter(sec.filter_expr, txns, num_months, v, pd)
+            res[name] = EP.evaluate(e, ctx)
+        except EP.ExpressionError:
+            res[name] = None
+    return res
+
+
+def single_filter(cfg, sec, txns, pd, num_months):
+    """the view's filter evaluated on its own over one merchant's payments → True / False / ('abort', cls).
+    Globals and locals are evaluated HERE, per merchant (spec_variables): nothing of classify_merchants / evaluate_variables /
+    evaluate_section_filter is used, so hoisting, caching or sharing of variable values in that code cannot hide in the oracle."""
+    from tally import expr_parser as EP
+    try:
+        g = spec_variables(list(cfg.global_variables.items()), txns, pd, num_months)
+        v = spec_variables(list(sec.variables.items()), txns, pd, num_months, g) if sec.variables else g
+        try:
+            ctx = EP.ExpressionContext(transactions=[dict(t) for t in txns], num_months=num_months, variables=dict(v), period_data=dict(pd or {}))
+            return bool(EP.evaluate(sec.filter_expr, ctx))
         except EP.ExpressionError:
             return False
     except EP.ExpressionError:
         return False
     except Exception as e:
         return ('abort', type(e).__name__)
+
+
+class _Inline(__import__('ast').NodeTransformer):
+    """replace every reference to a variable by the (already closed) expression that defines it; function names are not variables"""
+
+    def __init__(self, env):
+        self.env = env
+
+    def visit_Name(self, node):
+        import copy
+        e = self.env.get(node.id.lower())
+        return copy.deepcopy(e) if e is not None else node
+
+    def visit_Call(self, node):
+        node.args = [self.visit(a) for a in node.args]
+        for kw in node.keywords:
+            kw.value = self.visit(kw.value)
+        if not isinstance(node.func, __import__('ast').Name):
+            node.func = self.visit(node.func)
+        return node
+
+
+def written_out(cfg, sec):
+    """(closed filter text, [closed text of every variable in scope]) — the view's filter as ONE expression over the documented
+    primitives, every variable reference replaced by its definition (file order; a definition only sees earlier ones; a name written
+    with an upper-case letter is never reached because references are lower-cased; locals shadow globals inside their view only)"""
+    import ast
+    import copy
+    env, texts = {}, []
+    for name, e in list(cfg.global_variables.items()) + list(sec.variables.items()):
+        body = _Inline(env).visit(copy.deepcopy(ast.parse(e, mode='eval').body))
+        env = dict(env)
+        env[name] = body               # key as written: 'MyVar' is never equal to a lower-cased reference
+        texts.append(ast.unparse(body))
+    f = _Inline(env).visit(copy.deepcopy(ast.parse(sec.filter_expr, mode='eval').body))
+    return ast.unparse(f), texts
+
+
+def written_out_filter(closed, var_texts, txns, pd, num_months):
+    """True / False = the closed filter on this merchant; None = not applicable (some variable cannot be evaluated for this merchant:
+    it is None then, which a textual substitution does not express)"""
+    from tally import expr_parser as EP
+    mk = lambda: EP.ExpressionContext(transactions=[dict(t) for t in txns], num_months=num_months, variables={}, period_data=dict(pd or {}))
+    try:
+        for t in var_texts:
+            EP.evaluate(t, mk())
+    except Exception:
+        return None
+    try:
+        return bool(EP.evaluate(closed, mk()))
+    except EP.ExpressionError:
+        return False
+    except Exception:
+        return None
 
 
 def distinct_names(cfg):
@@ -623,10 +870,11 @@ def reparse_subset(cfg_text_sections, globals_, keep):
     return render_views({'globals': globals_, 'sections': [cfg_text_sections[i] for i in keep]})
 
 
-def views_oracle(views, text, bm, r, num_months=12):
+def views_oracle(views, text, bm, r, num_months=12, stats=None):
     """Returns the list of property failures for one (views file, merchant set)."""
     from tally import section_engine as SE, analyzer
     fails = []
+    stats = stats if stats is not None else {}
     case = {'views_text': text, 'merchants': bm_to_json(bm), 'num_months': num_months}
     try:
         cfg = SE.parse_sections(text)
@@ -658,6 +906,27 @@ def views_oracle(views, text, bm, r, num_months=12):
             if got != want:
                 fails.append(dict(case, **{'class': 'membership-differs-from-single-filter', 'view': sec.name, 'observed': got, 'required': want}))
                 break
+            # 1b. the same filter with every variable written out (one closed expression over the primitives, no variable machinery at all)
+            if cfg.global_variables or sec.variables:
+                try:
+                    closed, vts = written_out(cfg, sec)
+                except (SyntaxError, RecursionError, ValueError):
+                    closed = None
+                if closed is not None and len(closed) < 20000:
+                    bad = None
+                    for n, d in kept:
+                        w = written_out_filter(closed, vts, section_txns(n, d), pd, num_months)
+                        if w is None:
+                            continue
+                        stats['written_out_decisions'] = stats.get('written_out_decisions', 0) + 1
+                        if w != (n in got):
+                            bad = (n, w)
+                            break
+                    if bad:
+                        fails.append(dict(case, **{'class': 'membership-differs-from-filter-with-variables-written-out', 'view': sec.name,
+                                                   'merchant': bad[0], 'filter_written_out': closed[:2000], 'observed_member': not bad[1],
+                                                   'required_member': bad[1]}))
+                        break
     for k, v in res.items():
         for n, d in v:
             if spec_excluded(d.get('tags', [])):
@@ -941,7 +1210,7 @@ def run(ctx):
             bm['Ints'] = {'category': 'Bills', 'subcategory': 'Rent', 'tags': ['X'], 'total': 36,
                           'transactions': [{'month': '2024-11', 'amount': 12}, {'month': '2024-12', 'amount': 12}, {'month': '2025-01', 'amount': 12}]}
         some = next(iter(bm.items()))
-        views = gen_views(r, {'txns': section_txns(*some)})
+        views = gen_indirect_views(r, bm) if i % 3 == 1 else gen_views(r, {'txns': section_txns(*some)})
         text = render_views(views)
         nm = r.choice([12, 12, 3])
         out, cfg = impl_views(text, bm, nm)
@@ -975,9 +1244,16 @@ def run(ctx):
 
     # ---- the property on the implementation alone
     n_oracle = 0
+    ostats = {}
     for (views, text, bm, nm) in meta:
-        prop_fail.extend(views_oracle(views, text, bm, r, nm))
+        prop_fail.extend(views_oracle(views, text, bm, r, nm, ostats))
         n_oracle += 1
+    ind = [(v, bm, im) for (v, _, bm, _), im in zip(meta, impl_out) if v.get('indirect')]
+    split = sum(1 for v, bm, im in ind if 'result' in im and any(0 < len(ms) < len(bm) for _, ms in im['result']))
+    ctx.notes['indirect_globals_stream'] = {
+        'views_files': len(ind), 'derived_globals': sum(len(v['derived']) for v, _, _ in ind),
+        'files_where_a_view_lists_a_proper_nonempty_subset': split,
+        'written_out_filter_decisions(all files)': ostats.get('written_out_decisions', 0)}
     for (views, text, bm, nm) in meta[: (60 if ctx.quick else 1500)]:
         prop_fail.extend(error_excludes_oracle(bm, r, nm))
     for _ in range(150 if ctx.quick else 5000):
@@ -999,7 +1275,12 @@ def run(ctx):
                        '(30 % with planted type errors) on contexts of 0–14 payments (dates on month/year/week boundaries, undated rows, '
                        'negative / int / 2-decimal / dyadic amounts, tags in several letter cases, user variables incl. an unreachable '
                        'upper-case one); outcome compared at the expression body (exception class exact) and at the root. '
-                       'stream views: generated views files (globals, locals, reference filters, failing filters, 6 % equal names) '
+                       'stream views: generated views files (globals, locals, reference filters, failing filters, 6 % equal names; every third file is of '
+                       'the class "global variable that depends on the merchant only indirectly": 1–4 base globals that mention a primitive '
+                       '(total / months, avg(payments), by("month"), tags, category … in varying letter case) and 0–3 real constants, then 1–4 DERIVED '
+                       'globals written purely in terms of other variables — chains, max_val / abs / round, aggregates of list / nested / set-valued '
+                       'variables, conditional expressions, references in another letter case, 10 % an unreachable upper-case definition, 8 % a use '
+                       'before the definition — and views / view-local variables that use the derived ones, thresholds drawn from the merchant set) '
                        'parsed by the real parse_sections × merchant sets produced by the real analyze_transactions (1–6 merchants, '
                        '25 % with special tags in mixed case); result, per-view total and count compared. '
                        'non-trivial = expr: value outcome on ≥ 2 payments for a random/fixed filter; views: some view lists a proper, '
@@ -1013,7 +1294,7 @@ def run(ctx):
             txns = gen_transactions(r)
             bm = by_merchant_of(txns)
             some = next(iter(bm.items()))
-            views = gen_views(r, {'txns': section_txns(*some)}, ill_p=0.3)
+            views = gen_indirect_views(r, bm) if i % 2 else gen_views(r, {'txns': section_txns(*some)}, ill_p=0.3)
             out.extend(views_oracle(views, render_views(views), bm, r))
             out.extend(error_excludes_oracle(bm, r))
             out.extend(primitives_oracle(gen_ctx_txns(r)))
